@@ -1,4 +1,5 @@
 import Ecal.Lemmas.LexerPos
+import Ecal.Lemmas.LexerNum
 /-!
 Whole-input invariants of the lexer model (C18): what `L.next` consumes, the invariant between
 tokens, and its preservation by every lexing function.
@@ -725,18 +726,18 @@ def OffOK (id tpos lpos : Nat) : Prop :=
     (block comment: behind the closing `*/`) -/
 def EndOK (id tpos len rpos : Nat) : Prop :=
   (id = tPOSTCOMMENT → rpos = tpos + len) ∧ (id = tPRECOMMENT → rpos = tpos + len + 2) ∧
-  (7 ≤ id → rpos = tpos + len)
+  (7 ≤ id → rpos = tpos + len) ∧ (id = tNUMBER → rpos = tpos + len)
 
-theorem EndOK.other {id tpos len rpos : Nat} (h1 : id ≠ tPOSTCOMMENT) (h2 : id ≠ tPRECOMMENT) (h3 : ¬ 7 ≤ id) :
-    EndOK id tpos len rpos :=
-  ⟨fun h => absurd h h1, fun h => absurd h h2, fun h => absurd h h3⟩
+theorem EndOK.other {id tpos len rpos : Nat} (h1 : id ≠ tPOSTCOMMENT) (h2 : id ≠ tPRECOMMENT) (h3 : ¬ 7 ≤ id)
+    (h4 : id ≠ tNUMBER) : EndOK id tpos len rpos :=
+  ⟨fun h => absurd h h1, fun h => absurd h h2, fun h => absurd h h3, fun h => absurd h h4⟩
 
 theorem endOK_error {tpos len rpos : Nat} : EndOK tERROR tpos len rpos :=
-  EndOK.other (by decide) (by decide) (by decide)
+  EndOK.other (by decide) (by decide) (by decide) (by decide)
 theorem endOK_string {tpos len rpos : Nat} : EndOK tSTRING tpos len rpos :=
-  EndOK.other (by decide) (by decide) (by decide)
-theorem endOK_number {tpos len rpos : Nat} : EndOK tNUMBER tpos len rpos :=
-  EndOK.other (by decide) (by decide) (by decide)
+  EndOK.other (by decide) (by decide) (by decide) (by decide)
+theorem endOK_number {tpos len rpos : Nat} (h : rpos = tpos + len) : EndOK tNUMBER tpos len rpos :=
+  ⟨fun h' => absurd h' (by decide), fun h' => absurd h' (by decide), fun h' => absurd h' (by decide), fun _ => h⟩
 
 /-- **what a token phase does to the token list and the position**: exactly one token is pushed;
     the position stays inside the input; a phase that continues has moved forward; a phase that
@@ -1075,7 +1076,8 @@ theorem hash_inv (l la : L) (h : Inv l) (hp : Pend la (some 35) l.pos) (hc : la.
             show R.pos = R.start + (R.slice R.start R.pos).length
             have hge : R.start ≤ R.pos := by rw [c4]; rw [c1, ← a1] at rsz; omega
             rw [slice_length R _ _ hge rle]; omega,
-          fun h => absurd h (by decide : tPOSTCOMMENT ≠ tPRECOMMENT), fun h => absurd h (by decide : ¬ 7 ≤ tPOSTCOMMENT)⟩⟩
+          fun h => absurd h (by decide : tPOSTCOMMENT ≠ tPRECOMMENT), fun h => absurd h (by decide : ¬ 7 ≤ tPOSTCOMMENT),
+          fun h => absurd h (by decide : tPOSTCOMMENT ≠ tNUMBER)⟩⟩
     · rw [hr0] at rr; simp at rr
   · rename_i hr
     rcases rr with ⟨rr, _⟩ | ⟨_, p, hpp, g1, g2⟩
@@ -1096,7 +1098,8 @@ theorem hash_inv (l la : L) (h : Inv l) (hp : Pend la (some 35) l.pos) (hc : la.
             show R.pos = R.start + (R.slice R.start R.pos).length
             have hge : R.start ≤ R.pos := by rw [c4]; omega
             rw [slice_length R _ _ hge rle]; omega,
-          fun h => absurd h (by decide : tPOSTCOMMENT ≠ tPRECOMMENT), fun h => absurd h (by decide : ¬ 7 ≤ tPOSTCOMMENT)⟩⟩
+          fun h => absurd h (by decide : tPOSTCOMMENT ≠ tPRECOMMENT), fun h => absurd h (by decide : ¬ 7 ≤ tPOSTCOMMENT),
+          fun h => absurd h (by decide : tPOSTCOMMENT ≠ tNUMBER)⟩⟩
       refine ⟨by simpa [L.hashEnd, L.emit, c1] using q2, ?_, by simpa [AllOK, L.hashEnd] using hem⟩
       have hlen := slice_length R la.pos (p + 1) (by omega) (by rw [c1]; omega)
       have hlast := slice_getLast R la.pos (p + 1) (by omega) (by rw [c1]; omega)
@@ -1246,7 +1249,7 @@ theorem block_inv (l la : L) (h : Inv l) (hb : Blk l la) (hpk : la.peek 1 = some
           have hpp2 : (la.next).1.pos ≤ p' := hpp'
           have hge2 : l'.start ≤ l'.pos - 1 := by rw [hS']; omega
           rw [hlc, slice_length l' _ _ hge2 (by omega)]; omega,
-        fun h => absurd h (by decide : ¬ 7 ≤ tPRECOMMENT)⟩⟩
+        fun h => absurd h (by decide : ¬ 7 ≤ tPRECOMMENT), fun h => absurd h (by decide : tPRECOMMENT ≠ tNUMBER)⟩⟩
 
 theorem lexComment_inv (l : L) (h : Inv l)
     (hcase : l.peek 1 = some 35 ∨ (l.peek 1 = some 47 ∧ l.peek 2 = some 42)) :
@@ -1390,7 +1393,7 @@ theorem lexWordText_inv (l l2 : L) (h : Inv l) (hr : Ready l) (hb : Blk { l with
         fun h' => by simp at h', htne, Nat.le_of_eq c4.symm, Or.inr (Or.inr (Or.inr c4)),
         Or.inr (Or.inr c4),
         ⟨fun h => absurd h (by simp only [tPOSTCOMMENT]; omega), fun h => absurd h (by simp only [tPRECOMMENT]; omega),
-          fun _ => hwend⟩⟩
+          fun _ => hwend, fun h => absurd h (by simp only [tNUMBER]; omega)⟩⟩
   · split
     · obtain ⟨i1, i2, i3⟩ := blk_emit l _ h b3 tERROR (str "Cannot parse identifier") false false
         (Or.inr ⟨hstart tERROR (Or.inr rfl), by unfold TextOK; simp⟩)
@@ -1411,7 +1414,7 @@ theorem lexWordText_inv (l l2 : L) (h : Inv l) (hr : Ready l) (hb : Blk { l with
         fun h' => by simp at h', (by decide : tIDENTIFIER ≠ tEOF), Nat.le_of_eq c4.symm, Or.inr (Or.inr (Or.inr c4)),
         Or.inr (Or.inr c4),
         ⟨fun h => absurd h (by decide : tIDENTIFIER ≠ tPOSTCOMMENT), fun h => absurd h (by decide : tIDENTIFIER ≠ tPRECOMMENT),
-          fun _ => hwend⟩⟩
+          fun _ => hwend, fun h => absurd h (by decide : tIDENTIFIER ≠ tNUMBER)⟩⟩
 
 theorem lexWord_inv (l : L) (h : Inv l) (hr : Ready l) :
     AllOK (lexWord { l with start := l.pos }).1 ∧
@@ -1448,6 +1451,18 @@ theorem lexWord_inv (l : L) (h : Inv l) (hr : Ready l) :
         refine ⟨(lexNumberBlock { l with start := l.pos }).pos, by rw [c4] at hlen; omega,
           by have := b1.le; rw [c1] at this; exact this, ?_⟩
         simp only [L.slice, c1, c4]
+    -- the number's text is ASCII without letters that lower-casing could shorten: the phase ends
+    -- directly behind it
+    have hnend : (lexNumberBlock { l with start := l.pos }).pos = (lexNumberBlock { l with start := l.pos }).start +
+        (lowerGo ((lexNumberBlock { l with start := l.pos }).slice (lexNumberBlock { l with start := l.pos }).start
+          (lexNumberBlock { l with start := l.pos }).pos)).length := by
+      have hvf : validFloat (lowerGo ((lexNumberBlock { l with start := l.pos }).slice
+          (lexNumberBlock { l with start := l.pos }).start (lexNumberBlock { l with start := l.pos }).pos)) = true := by
+        simp only [numberCandidate, Bool.and_eq_true] at hnum; exact hnum.2
+      have hbytes := validFloat_bytes hvf
+      rw [lowerGo_length _ (fun b hb => by
+        rcases hbytes b hb with h | h | h | h <;> omega), slice_length _ _ _ hge b1.le]
+      omega
     obtain ⟨i1, i2, i3⟩ := blk_emit l _ h b1 tNUMBER
       (lowerGo ((lexNumberBlock { l with start := l.pos }).slice (lexNumberBlock { l with start := l.pos }).start
         (lexNumberBlock { l with start := l.pos }).pos)) false false (Or.inr hshape)
@@ -1456,7 +1471,7 @@ theorem lexWord_inv (l : L) (h : Inv l) (hr : Ready l) :
         show (lexNumberBlock { l with start := l.pos }).start < (lexNumberBlock { l with start := l.pos }).pos
         omega,
       fun h' => by simp at h', (by decide : tNUMBER ≠ tEOF), Nat.le_of_eq c4.symm, Or.inr (Or.inr (Or.inr c4)),
-      Or.inr (Or.inr c4), endOK_number⟩
+      Or.inr (Or.inr c4), endOK_number hnend⟩
   · apply lexWordText_inv l _ h hr
     obtain ⟨c1, c2, c3, c4, c5⟩ := core_fields b1.core
     simp only [] at c4
